@@ -135,6 +135,8 @@ type wev struct {
 	typ   string
 	key   string // ns/name
 	state int
+	// initial: an Added from the reflector's initial list (client-go sets isInInitialList)
+	initial bool
 }
 
 type bufEntry struct {
@@ -333,8 +335,8 @@ func (w *world) syncInformers() {
 				if w.running {
 					// an informer created while the binding is live: its objects become matching now,
 					// which is a change the hook has to learn about
-					inf.delivered[ck] = append(inf.delivered[ck], wev{"Added", ck, st})
-					w.drops["dynamic-informer-initial-list"] = append(w.drops["dynamic-informer-initial-list"], wev{"Added", ck, st})
+					inf.delivered[ck] = append(inf.delivered[ck], wev{"Added", ck, st, false})
+					w.drops["dynamic-informer-initial-list"] = append(w.drops["dynamic-informer-initial-list"], wev{"Added", ck, st, false})
 				} else {
 					inf.list0[ck] = st
 				}
@@ -379,12 +381,12 @@ func (w *world) applyOp(op Op) error {
 			if err := kit.Update(w.fc, kit.Obj(op.Ns, op.Name, body(op.State))); err != nil {
 				return err
 			}
-			e = wev{"Modified", key, op.State}
+			e = wev{"Modified", key, op.State, false}
 		} else {
 			if err := kit.Create(w.fc, kit.Obj(op.Ns, op.Name, body(op.State))); err != nil {
 				return err
 			}
-			e = wev{"Added", key, op.State}
+			e = wev{"Added", key, op.State, false}
 		}
 		w.cluster[key] = op.State
 	case "delete":
@@ -394,7 +396,7 @@ func (w *world) applyOp(op Op) error {
 		if err := kit.Delete(w.fc, op.Ns, op.Name); err != nil {
 			return err
 		}
-		e = wev{"Deleted", key, w.cluster[key]}
+		e = wev{"Deleted", key, w.cluster[key], false}
 		delete(w.cluster, key)
 	}
 	for _, k := range w.order {
@@ -417,7 +419,7 @@ func (w *world) startInformer(inf *informer) {
 	}
 	sort.Strings(keys)
 	for _, k := range keys {
-		inf.fifo = append(inf.fifo, wev{"Added", k, w.cluster[k]})
+		inf.fifo = append(inf.fifo, wev{"Added", k, w.cluster[k], true})
 	}
 	for k := range inf.cache {
 		if _, ok := w.cluster[k]; !ok {
@@ -508,7 +510,7 @@ func (w *world) nsDone(a *sched.Actor, from string) {
 			} else if w.sync.Point == "mon.EnableKubeEventCb.beforeFlag" || w.sync.Done {
 				if !inf.enabled {
 					w.label("dynamic-ns-missed-by-unlock")
-					w.drops["dynamic-namespace-enable-window"] = append(w.drops["dynamic-namespace-enable-window"], wev{"*", ns + "/*", 0})
+					w.drops["dynamic-namespace-enable-window"] = append(w.drops["dynamic-namespace-enable-window"], wev{"*", ns + "/*", 0, false})
 				}
 			}
 		}
@@ -650,7 +652,7 @@ func (w *world) stepDelivery(inf *informer) {
 		d.actor = w.s.Spawn("INF "+inf.key, func() {
 			switch e.typ {
 			case "Added":
-				inf.real.OnAdd(obj, false)
+				inf.real.OnAdd(obj, e.initial)
 			case "Modified":
 				inf.real.OnUpdate(obj, obj)
 			case "Deleted":
